@@ -576,6 +576,39 @@ Section InitFinal.
   Qed.
 End InitFinal.
 
+(* ------------------------------------------------------------------ the test that opens evaluate (fixes/C07-all-zero.diff) *)
+Lemma has_votes_false votes : has_votes votes = false -> forall i j, mget votes i j = 0.
+Proof.
+  intros H i j. unfold mget, dget_or. destruct (dget votes i) as [row|] eqn:Ei; [|reflexivity].
+  destruct (dget row j) as [v|] eqn:Ej; [|reflexivity].
+  destruct (Z.eq_dec v 0) as [E|E]; [exact E|exfalso].
+  assert (has_votes votes = true); [|congruence].
+  unfold has_votes. apply existsb_exists. exists (i, row). split; [apply (dget_In _ _ _ Ei)|].
+  apply existsb_exists. exists (j, v). split; [apply (dget_In _ _ _ Ej)|]. cbn [snd]. apply negb_true_iff, Z.eqb_neq, E.
+Qed.
+Lemma has_votes_true votes : wf_votes votes -> has_votes votes = true -> exists i j, mget votes i j <> 0.
+Proof.
+  intros [Hnd Hrows] H. unfold has_votes in H. apply existsb_exists in H. destruct H as ([i row] & Hr & H).
+  apply existsb_exists in H. destruct H as ([j v] & Hkv & H). cbn [snd] in *. apply negb_true_iff, Z.eqb_neq in H.
+  pose proof (Hrows _ Hr) as Hrow. cbn [snd] in Hrow.
+  exists i, j. unfold mget, dget_or. rewrite (In_dget _ _ _ Hnd Hr), (In_dget _ _ _ Hrow Hkv). exact H.
+Qed.
+
+(* with no seat to fill nobody is eligible: HighestAverages.evaluate raises (zip of an empty list) *)
+Lemma initial_quotients_nonpos d (vs : list (C * Q)) n : n <= 0 -> initial_quotients d vs [] [] n = [].
+Proof.
+  intros Hn. unfold initial_quotients.
+  match goal with |- rev (_ _ ?l) = [] => assert (E : l = []) end.
+  { induction vs as [|[c v] t IH]; [reflexivity|]. cbn [flat_map]. rewrite IH.
+    unfold cap_of, dget_or. cbn [dget]. assert (0 <? n = false) as -> by (apply Z.ltb_ge; exact Hn).
+    destruct (Qle_bool (d 0) 0); reflexivity. }
+  rewrite E. reflexivity.
+Qed.
+Lemma initial_quotients_zero d (vs : list (C * Q)) : initial_quotients d vs [] [] 0 = [].
+Proof. apply initial_quotients_nonpos. lia. Qed.
+Lemma evaluate_nonpos d vs n : n <= 0 -> evaluate d vs n [] [] = HA_value_error.
+Proof. intros Hn. unfold evaluate. rewrite (initial_quotients_nonpos d vs n Hn). reflexivity. Qed.
+
 (* ------------------------------------------------------------------ the whole evaluate: partial correctness *)
 Section Whole.
   Variable d : Z -> Q.
@@ -587,37 +620,118 @@ Section Whole.
   Variable votes : mat.
   Hypothesis Hwf : wf_votes votes.
   Hypothesis Hvnn : forall i j, 0 <= mget votes i j.
-  Hypothesis Hsome : exists i j, 0 < mget votes i j.
   Variable n : Z.
   Hypothesis Hn : 0 <= n.
   Variable dorder : list C.
   Hypothesis Hdorder : incl (districts votes) dorder.
 
-  Theorem evaluate_core_partial tgt fuel res rho gamma :
-    evaluate_core d q votes tgt dorder n fuel = BP_ok res rho gamma ->
+  (* the code as it stands ([strict] = true) refuses an election without votes, so "some vote is positive" is no longer a
+     hypothesis; the pinned tree ([strict] = false) needs it (Props/C07.v C07_all_zero_refuted) *)
+  Lemma not_refused_some strict : strict = true \/ (exists i j, 0 < mget votes i j) ->
+    refuses_empty votes strict = false -> exists i j, 0 < mget votes i j.
+  Proof.
+    intros [->|H] Hr; [|exact H]. unfold refuses_empty in Hr. cbn [andb] in Hr. apply negb_false_iff in Hr.
+    destruct (has_votes_true votes Hwf Hr) as (i & j & Hij). exists i, j. pose proof (Hvnn i j). lia.
+  Qed.
+
+  Theorem evaluate_core_partial strict tgt fuel res rho gamma : strict = true \/ (exists i j, 0 < mget votes i j) ->
+    evaluate_core d q votes tgt dorder strict n fuel = BP_ok res rho gamma ->
     exists pseats, ha_marginal d (party_totals votes) n = Some pseats /\
       cert_ok d (districts votes) (parties votes) votes tgt pseats res (scale_k k rho) gamma = true.
   Proof.
-    unfold evaluate_core. destruct (binit d q votes n) as [e|s] eqn:Ei; [intros ->; unfold binit in Ei;
+    intros Hs. unfold evaluate_core. destruct (refuses_empty votes strict) eqn:Er; [discriminate|].
+    pose proof (not_refused_some strict Hs Er) as Hsome.
+    destruct (binit d q votes n) as [e|s] eqn:Ei; [intros ->; unfold binit in Ei;
       destruct (initial_solution d votes n); discriminate|].
     intros H. destruct (binit_inv d q k Hq0 Hq1 Hk Hd votes Hwf Hvnn Hsome n Hn s Ei) as (pseats & Ep & I).
     exists pseats. split; [unfold ha_marginal; rewrite Ep; reflexivity|].
     apply (bloop_partial d q k Hq0 Hq1 Hk Hd votes Hwf pseats tgt dorder Hdorder fuel s res rho gamma I H).
   Qed.
 
-  Theorem evaluate_total_partial fuel res rho gamma :
-    evaluate_total d q votes n dorder fuel = BP_ok res rho gamma ->
+  Theorem evaluate_total_partial strict fuel res rho gamma : strict = true \/ (exists i j, 0 < mget votes i j) ->
+    evaluate_total d q votes strict n dorder fuel = BP_ok res rho gamma ->
     exists pseats dseats, ha_marginal d (party_totals votes) n = Some pseats /\
       ha_marginal d (district_totals votes) n = Some dseats /\
       cert_ok d (districts votes) (parties votes) votes dseats pseats res (scale_k k rho) gamma = true.
   Proof.
-    unfold evaluate_total. destruct (binit d q votes n) as [e|s] eqn:Ei; [intros ->; unfold binit in Ei;
+    intros Hs. unfold evaluate_total. destruct (refuses_empty votes strict) eqn:Er; [discriminate|].
+    destruct (binit d q votes n) as [e|s] eqn:Ei; [intros ->; unfold binit in Ei;
       destruct (initial_solution d votes n); discriminate|].
     destruct (evaluate d (district_totals votes) n [] []) as [tgt [t|]|] eqn:Et; try discriminate.
-    intros H. destruct (evaluate_core_partial tgt fuel res rho gamma H) as (pseats & Hp & Hc).
+    intros H. destruct (evaluate_core_partial strict tgt fuel res rho gamma Hs H) as (pseats & Hp & Hc).
     exists pseats, tgt. split; [exact Hp|]. split; [unfold ha_marginal; rewrite Et; reflexivity|exact Hc].
   Qed.
+
+  (* the refusal is justified: without a vote no seat matrix has the party marginal and empty cells where there are no
+     votes (the party marginal hands out n >= 1 seats: with n = 0 HighestAverages raises, there is no marginal) *)
+  Theorem no_votes_infeasible pseats : has_votes votes = false ->
+    ha_marginal d (party_totals votes) n = Some pseats ->
+    forall dseats res, ~ biprop_spec d (districts votes) (parties votes) votes dseats pseats res.
+  Proof.
+    intros Hz Hm dseats res (rho & gamma & S).
+    pose proof (has_votes_false votes Hz) as Hzero.
+    apply ha_marginal_spec in Hm.
+    destruct (evaluate_ok _ _ _ _ _ Hm) as (Hne & Eg & Et & Hgn & Hgp).
+    set (pv := party_totals votes) in *.
+    pose proof (Hdpos d q k Hq1 Hk Hd) as Hp. pose proof (Hdmono d q k Hk Hd) as Hmo.
+    assert (Hpv : forall c v, In (c, v) pv -> (0 <= v)%Q).
+    { intros c v H. unfold pv, party_totals in H. apply in_map_iff in H. destruct H as (j & E & _). injection E as _ <-.
+      apply (inj_le 0). unfold colsum. apply zsum_map_nonneg. intros i _. apply Hvnn. }
+    assert (Hpnd : NoDup (map fst pv)) by (unfold pv; rewrite party_totals_keys; apply parties_nodup).
+    pose proof (ha_all_seats d pv n Hp Hmo Hpv Hpnd Hn Hne) as Hall. rewrite <- Et in Hall.
+    (* n >= 1: with n = 0 nobody is eligible *)
+    assert (Hn1 : 0 < n).
+    { destruct (Z.eq_dec n 0) as [E0|E0]; [|lia]. exfalso. subst n. unfold evaluate in Hm.
+      rewrite initial_quotients_zero in Hm. discriminate. }
+    (* every column of the matrix is empty, so every party total of the marginal is 0 *)
+    assert (Hcol : forall j, In j (parties votes) -> tot (final_state d pv n [] []) j = 0).
+    { intros j Hj. change (tot (final_state d pv n [] []) j) with (dget_or (st_totals (final_state d pv n [] [])) j 0).
+      rewrite <- Eg. rewrite <- (sp_cols _ _ _ _ _ _ _ _ _ S j Hj). unfold colsum.
+      rewrite (zsum_map_ext _ (fun _ => 0) (districts votes)); [apply zsum_map_zero|].
+      intros i _. apply (sp_zero _ _ _ _ _ _ _ _ _ S i j (Hzero i j)). }
+    unfold pv in Hall. rewrite party_totals_keys in Hall. unfold ksum in Hall.
+    rewrite (zsum_map_ext _ (fun _ => 0) (parties votes)) in Hall by exact Hcol. rewrite zsum_map_zero in Hall. lia.
+  Qed.
 End Whole.
+
+(* ------------------------------------------------------------------ BP_no_votes is only produced by the opening test *)
+Lemma bstep_body_not_no_votes q votes s under over : bstep_body q votes s under over <> Stop BP_no_votes.
+Proof.
+  unfold bstep_body.
+  destruct (labeled q (parties votes) (districts votes) _ (b_res s) under over) as [LD LP| |]; try discriminate.
+  destruct (sort_pos (filter (fun i => dmem LD i) under)) as [|start rest].
+  - destruct (adj_coef q _ (b_res s) (map fst LD) (map fst LP)) as [a|]; [|discriminate].
+    destruct (Qeq_bool a 0 || Qle_bool 1 a); discriminate.
+  - destruct (walk (S (length LD)) LD LP over start [] []) as [hops| |]; try discriminate.
+    destruct (augment (b_res s) start hops); discriminate.
+Qed.
+Lemma bloop_not_no_votes q votes tgt dorder : forall fuel s, bloop q votes tgt dorder fuel s <> BP_no_votes.
+Proof.
+  induction fuel as [|f IH]; intros s; simpl; [discriminate|].
+  destruct (bstep q votes tgt dorder s) as [|s'|r] eqn:E; [discriminate|apply IH|].
+  intros ->. revert E. unfold bstep. cbv zeta.
+  destruct (fst (unsat dorder (b_res s) tgt)); [destruct (snd (unsat dorder (b_res s) tgt)); [discriminate|]|];
+    apply bstep_body_not_no_votes.
+Qed.
+Lemma evaluate_core_no_votes d q votes tgt dorder n fuel :
+  evaluate_core d q votes tgt dorder true n fuel = BP_no_votes <-> has_votes votes = false.
+Proof.
+  unfold evaluate_core, refuses_empty. cbn [andb]. destruct (has_votes votes); cbn [negb]; [|tauto].
+  split; [|discriminate]. intros H. exfalso. revert H.
+  destruct (binit d q votes n) as [e|s] eqn:Ei; [|apply bloop_not_no_votes].
+  intros ->. unfold binit in Ei. destruct (initial_solution d votes n); discriminate.
+Qed.
+Lemma evaluate_total_no_votes d q votes dorder n fuel :
+  evaluate_total d q votes true n dorder fuel = BP_no_votes <-> has_votes votes = false.
+Proof.
+  unfold evaluate_total. pose proof (evaluate_core_no_votes d q votes) as Hc. unfold refuses_empty in *. cbn [andb].
+  destruct (has_votes votes); cbn [negb]; [|tauto].
+  split; [|discriminate]. intros H. exfalso. revert H.
+  destruct (binit d q votes n) as [e|s] eqn:Ei.
+  - intros ->. unfold binit in Ei. destruct (initial_solution d votes n); discriminate.
+  - destruct (evaluate d (district_totals votes) n [] []) as [tgt [t|]|]; try discriminate.
+    intros H. apply Hc in H. discriminate.
+Qed.
 
 (* the two divisor rules the evaluator knows the signpost constant of *)
 Lemma d_hondt_signposts s : (d_hondt s == 1 * (inject_Z s + 1 - 0))%Q.
